@@ -179,6 +179,45 @@ impl<T> Executor<T> {
 //@ endslice
 }
 
+//@ region executor_ctor_specs props=C10
+pub assume_specification<T> [std::cell::RefCell::<T>::new] (t: T) -> (r: RefCell<T>);
+pub assume_specification<T> [Mutex::<T>::new] (t: T) -> (r: Mutex<T>)
+    ensures mutex_content(&r) == t;
+/// what a fresh Mutex holds (ghost; ASSUMED)
+pub uninterp spec fn mutex_content<T>(m: &Mutex<T>) -> T;
+/// Rule R23 (see channel.rs): derived Clone of `Ping`
+#[verifier::external_body]
+fn ping_clone(p: &Ping) -> (r: Ping)
+    ensures r == *p,
+{ p.clone() }
+impl<T> Executor<T> {
+    pub closed spec fn st(&self) -> Rc<State<T>> { self.state }
+    pub closed spec fn own_fd(&self) -> int { self.ping.raw() }
+}
+impl<T> Scheduler<T> {
+    pub closed spec fn st(&self) -> Rc<State<T>> { self.state }
+}
+impl<T> State<T> {
+    pub closed spec fn wake_fd(&self) -> int { self.sender.wake_up.raw() }
+    pub closed spec fn tx(&self) -> mpsc::Sender<Runnable<usize>> { mutex_content(&self.sender.sender) }
+    pub closed spec fn rx(&self) -> &mpsc::Receiver<Runnable<usize>> { &self.incoming }
+}
+//@ endregion
+//@ item src/sources/futures.rs / fn executor props=C10 ret=r
+//@ rw R23 * <<wake_up.clone()>> => <<ping_clone(&wake_up)>>
+//@ spec
+    ensures
+        r matches Ok(p) ==> {
+            // C10: executor and scheduler share ONE state; wakers write to the very eventfd the executor's PingSource polls
+            // (which is also the one the executor re-arms itself through); the queue the wakers send into is the one the
+            // executor drains
+            &&& p.0.st() == p.1.st()
+            &&& p.0.st().wake_fd() == p.0.src().raw()
+            &&& p.0.own_fd() == p.0.src().raw()
+            &&& queue_of_tx(&p.0.st().tx()) == queue_of_rx(p.0.st().rx())
+        },
+//@ enditem
+
 //@ region executor_src_spec props=C16,C07,C15
 impl<T> Executor<T> {
     pub closed spec fn src(&self) -> PingSource { self.source }
